@@ -1,0 +1,27 @@
+// Copyright (c) Jim Lambert
+// SPDX-License-Identifier: MIT
+
+//go:build verif
+
+package gldap
+
+import "sync/atomic"
+
+// Verification hooks (build tag "verif"): scheduling gates which let an
+// external harness hold a goroutine at a named point so it can run another
+// one.  Without the tag verifGate is an empty function (see verif_off.go).
+
+type verifGateFunc func(point string, ids ...int)
+
+var verifGateFn atomic.Value // holds a verifGateFunc
+
+// SetVerifGate installs (or with nil removes) the gate callback.
+func SetVerifGate(f func(point string, ids ...int)) {
+	verifGateFn.Store(verifGateFunc(f))
+}
+
+func verifGate(point string, ids ...int) {
+	if f, _ := verifGateFn.Load().(verifGateFunc); f != nil {
+		f(point, ids...)
+	}
+}
